@@ -1,2 +1,4 @@
 //! Shared helpers for the conformance harness.
 pub mod util;
+pub mod problems;
+pub mod recorder;
